@@ -13,10 +13,12 @@ MEMORY_CACHE_FUNCS = [SB + n for n in ("__init__", "_mark_used", "_evict", "get_
 
 prop("C06",
      modules=["memory_cache"],
-     functions=MEMORY_CACHE_FUNCS,
+     functions=MEMORY_CACHE_FUNCS + [SB + "_pd_linreg_mem_usage"],
+     function_modules={SB + "_pd_linreg_mem_usage": ["sizeest"]},
      design_ref="DESIGN.md section 6, C06",
      trusted=["history induction (DESIGN 3.3): invariant established by __init__ and preserved by every public method => holds after every finite history",
-              "MemoryCache._estimate_object_size returns a non-negative int (assumed contract)"],
+              "MemoryCache._estimate_object_size returns a non-negative int (assumed contract; its pandas branch _pd_linreg_mem_usage is proved non-negative; sys.getsizeof / pandas memory_usage are assumed non-negative); "
+              "how close the estimate is to the real size is not claimed (dict and list results are estimated from one element)"],
      )
 
 SBB = "storage_base:StorageBackendBase."
@@ -54,7 +56,7 @@ prop("C07",
 prop("C19",
      modules=["nullbackends"],
      functions=[SBB + n for n in ("memoize", "forget_call", "forget_everything", "forget_function", "write_metadata", "is_memoized", "read_result", "get_mementos")]
-     + ["storage_null:NullStorageBackend." + n for n in ("get_mementos", "is_memoized", "is_all_memoized", "list_functions", "read_result", "read_metadata", "memoize")]
+     + ["storage_null:NullStorageBackend." + n for n in ("get_mementos", "is_memoized", "is_all_memoized", "list_functions", "list_mementos", "read_result", "read_metadata", "memoize")]
      + ["runner_null:NullRunnerBackend.batch_run", "storage:StorageBackend.__init__",
         "storage_filesystem:FilesystemStorageBackend.__init__@config-only", "storage_memory:MemoryStorageBackend.__init__@config-only"]
      + [MB + n for n in ("memoize", "forget_call", "forget_everything", "write_metadata", "get_mementos", "is_memoized", "read_result")],
@@ -160,7 +162,7 @@ prop("C04", modules=["args"],
 
 PPS = "storage_base:DefaultCodec.PicklePartitionStrategy.store"
 prop("C17", modules=["partition"],
-     functions=[PPS + "@inmemory", PPS + "@ondisk", PPS + "@with-parent",
+     functions=[PPS + "@inmemory", PPS + "@ondisk", PPS + "@readback", PPS + "@with-parent",
                 "partition:InMemoryPartition.get", "partition:InMemoryPartition.list_keys", "storage_filesystem:OnDiskPartition.get", "storage_filesystem:OnDiskPartition.list_keys",
                 "storage_base:DefaultCodec.PicklePartition.get", "storage_base:DefaultCodec.PicklePartition.list_keys"],
      design_ref="DESIGN.md section 6, C17",
